@@ -27,8 +27,10 @@ def parse(text: str, statement_stream_processor: "StatementStreamProcessor", *, 
     methods in the statement stream processor.
     """
     pr = _ParseTreeProcessor(statement_stream_processor, strict=strict)
+    tree = None
     try:
-        pr.visit(_get_grammar().parse(text))  # type: ignore
+        tree = _get_grammar().parse(text)  # type: ignore
+        pr.visit(tree)
     except _error.Error as ex:
         # Inject error location. If this exception is being propagated from a recursive instance, it already has
         # its error location populated, so nothing will happen here. If only its path is known, then the error was
@@ -41,7 +43,9 @@ def parse(text: str, statement_stream_processor: "StatementStreamProcessor", *, 
         raise DSDLSyntaxError("Syntax error", line=int(ex.line())) from None  # type: ignore
     except RecursionError:
         # The parser is recursive, so expressions nested several dozen levels deep exhaust the interpreter stack.
-        raise DSDLSyntaxError("The definition is nested too deeply", line=pr.current_line_number) from None
+        # The line is known only if the failure occurred while visiting the tree rather than while building it.
+        line = pr.current_line_number if tree is not None else None
+        raise DSDLSyntaxError("The definition is nested too deeply", line=line) from None
     except parsimonious.VisitationError as ex:  # pragma: no cover
         # noinspection PyBroadException
         try:
